@@ -20,6 +20,13 @@ Source-to-source rewrites (each fail-closed: one exact shape, TranslateError oth
     W2  self._success, self._value = obj   ->  the parameter obj is split in two (obj_success, obj_value)
     W3  `with self._mutex:`                ->  its body (one atomic section)
 
+Hook point (2026-09-23, seeded change C03-4): the modelled calls of the two hooks that run between
+_ack's decision and its answer (call_timeout_set, accept_cb_try) apply `late`: under the oracle
+g_late_cancel the handle's _cancelled flag becomes True there (a _cancel() issued by the accept callback
+or by another thread).  A second reading of the flag after a hook is then visible to gen_p_ack; and the
+NUMBER of readings of `self._cancelled` in _ack is emitted (ack_cancelled_reads) and proved to be 1
+(gen_ack_reads_flag_once), so a re-read placed anywhere breaks a proof.
+
 Text pins (outside the translated subset or one-liners the modelled calls stand for):
 ApplyResult.ready, ApplyResult.safe_apply_callback, ApplyResult._cancel, ApplyResult.worker_pids,
 ApplyResult.accepted, the nested ResultHandler on_ack / on_ready (the `cache[job]` routing and the
@@ -40,7 +47,7 @@ PV_FIELDS = ['self._cancelled', 'self._send_ack', 'self._accepted', 'self._time_
              'self._on_timeout_cancel', 'self._callback', 'self._error_callback',
              'self._success', 'self._value', 'self._job']
 GHOSTS = [('g_event', 'bool'), ('g_incache', 'bool'), ('g_cb_raises', 'bool'),
-          ('g_attr_error', 'bool'), ('g_out', 'list eff')]
+          ('g_attr_error', 'bool'), ('g_out', 'list eff'), ('g_late_cancel', 'bool')]
 
 ACCEPT_TRY = '''\
 try:
@@ -133,14 +140,21 @@ Inductive eff :=
 
 PRELUDE_CALLS = '''\
 Definition log (s : st) (e : eff) : st := set_g_out s (g_out s ++ [e]).
+(* HOOK POINT.  While a hook of _ack runs (the timeout hook, the accept callback), other
+   parent-side code runs: the callback itself, or another thread -- _ack holds only the
+   handle's mutex and ApplyResult._cancel (pinned: `self._cancelled = True`) takes no lock.
+   Oracle g_late_cancel: such a _cancel() lands during the hooks.  Every reading of
+   self._cancelled that _ack makes AFTER a hook therefore sees the new value. *)
+Definition late (s : st) : st :=
+  if g_late_cancel s then set_self__cancelled s (PBool true) else s.
 (* self._on_timeout_set(self, soft, hard) / self._on_timeout_cancel(self) *)
-Definition call_timeout_set (s : st) (_ : list pv) : outcome st pv := Ok PNone (log s GTimeoutSet).
+Definition call_timeout_set (s : st) (_ : list pv) : outcome st pv := Ok PNone (late (log s GTimeoutSet)).
 Definition call_timeout_cancel (s : st) (_ : list pv) : outcome st pv := Ok PNone (log s GTimeoutCancel).
 (* W1: the try statement around self._accept_callback(pid, time_accepted) *)
 Definition accept_cb_try (s : st) (a : list pv) : outcome st pv :=
   match a with
   | [pid; t] =>
-      let s := log s (GCbAccept pid t) in
+      let s := late (log s (GCbAccept pid t)) in
       if g_cb_raises s then Exc TypeError (set_g_attr_error s true)   (* stands for AttributeError *)
       else Ok PNone s
   | _ => Exc TypeError s
@@ -262,6 +276,18 @@ def unwrap_mutex(body, where):
     return list(body[0].body)
 
 
+def count_cancelled_reads(tree):
+    """how many times ApplyResult._ack reads self._cancelled (Load context), and is the first statement
+    of the locked body the test of that one reading?"""
+    fn = find_func(tree, 'ApplyResult._ack')
+    n = sum(1 for node in ast.walk(fn) if isinstance(node, ast.Attribute) and node.attr == '_cancelled'
+            and isinstance(node.ctx, ast.Load))
+    stores = sum(1 for node in ast.walk(fn) if isinstance(node, ast.Attribute) and node.attr == '_cancelled'
+                 and not isinstance(node.ctx, ast.Load))
+    # indirect readings (getattr / vars / __dict__) are outside the translated subset anyway: FuncTr rejects them
+    return n, stores
+
+
 def gen_ack(kernel, tree, consts):
     where = 'ApplyResult._ack'
     fn = find_func(tree, where)
@@ -342,6 +368,10 @@ def generate(repo):
     out += ['', PRELUDE_CALLS]
     out.extend(defs)
     facts = plain_facts(tree)
+    reads, stores = count_cancelled_reads(ast.parse(src))
+    expect(stores == 0, 'ApplyResult._ack assigns self._cancelled: the model of the parent side does not')
+    out += ['(* readings of self._cancelled in ApplyResult._ack (counted on this run): the decision is taken on ONE reading *)',
+            'Definition ack_cancelled_reads : nat := %d%%nat.' % reads]
     out += ['(* what a plain billiard.Pool gives its handles and workers (text-compared on this run) *)',
             'Definition plain_send_ack_is_noop : bool := %s.' % ('true' if facts['Pool.send_ack'] else 'false'),
             'Definition plain_workers_have_no_syn_queue : bool := %s.'
